@@ -1,15 +1,27 @@
 """C16 — mesopore size distributions conserve volume and follow the Kelvin equation.
 
 Lean: Props/C16.lean over Model/Meso.lean (the three recurrences, statement by statement) and Gen/CharR.lean (Kelvin and thickness
-formulas regenerated from the source).  Tie: the ℚ model is run against the real psd_pygapsdh / psd_bjh / psd_dollimore_heal on the
-same arrays; the generated Kelvin/thickness formulas are run against the real functions.  Failing-input search: the property
-clauses on psd_mesoporous (isotherm entry point) with an independent SI-unit Kelvin equation and liquid-volume bookkeeping.
+formulas regenerated from the source); Props/C16/Session.lean + Props/C16/Tabulated.lean over Model/MesoSession.lean (the isotherm
+entry point on the CURRENT property set of the adsorbate object the isotherm refers to, sessions of analyses with object identity /
+registry / in-place edits, tabulated thickness curves).
+Tie: the ℚ model is run against the real psd_pygapsdh / psd_bjh / psd_dollimore_heal on the same arrays (Drv/Char.lean); the generated
+Kelvin/thickness formulas are run against the real functions; the session model (Drv/Meso.lean, stateful) is run against one real
+interpreter session: user-defined Adsorbate objects created, re-registered under the same name, edited in place, isotherms built by
+name, psd_mesoporous called with every thickness / Kelvin model kind; the tabulated-curve model against SiO2_JKO / CB_KJG.
+Failing-input search: the property clauses on psd_mesoporous (isotherm entry point) with an independent SI-unit Kelvin equation and
+liquid-volume bookkeeping from the property set that is current AT THE TIME OF THE CALL, over sequences of analyses in one process
+that share adsorbate names, temperatures, data, material names and callable names.
 """
 import math
+import sys
+from pathlib import Path
 
 from pgv.charlib import optq, parse_qlist, q, qlist, quiet_logging, tv_run
-from pgv.core import import_pygaps
+from pgv.core import SRC, import_pygaps
 from pgv.models import logu, relerr
+
+if hasattr(sys, "set_int_max_str_digits"):
+    sys.set_int_max_str_digits(0)     # exact rationals coming back from the ℚ model can have thousands of digits
 
 R = 6.02214076e23 * 1.380649e-23      # exact SI value (N_A k_B)
 FACTOR = {"cylindrical": 2.0, "hemispherical": 1.0, "hemicylindrical": 0.5}
@@ -17,6 +29,13 @@ FACTOR = {"cylindrical": 2.0, "hemispherical": 1.0, "hemicylindrical": 0.5}
 # everything else from / to a hemispherical meniscus, slits have hemicylindrical menisci
 MENISCUS = {("ads", "slit"): "hemicylindrical", ("ads", "cylinder"): "cylindrical", ("ads", "halfopen-cylinder"): "hemispherical", ("ads", "sphere"): "hemispherical",
             ("des", "slit"): "hemicylindrical", ("des", "cylinder"): "hemispherical", ("des", "halfopen-cylinder"): "hemispherical", ("des", "sphere"): "hemispherical"}
+# the two standard thickness curves by their published source (Jaroniec/Kruk/Olivier 1999: LiChrospher Si-1000 silica;
+# Kruk/Jaroniec/Gadkaree 1997: Cabot BP280 carbon black), read from the data files, not through the library
+STD_CURVES = {"SiO2 Jaroniec/Kruk/Olivier": ("LiChrospher Si-1000 silica.csv", "SiO2_JKO"),
+              "carbon black Kruk/Jaroniec/Gadkaree": ("Cabot BP280 carbon black.csv", "CB_KJG")}
+MONOLAYER_NM = 0.354                  # thickness of one nitrogen layer (t = n / n_m * 0.354 nm)
+USER_NAMES = ["pgv-gas-a", "pgv-gas-b"]
+USER_TEMPS = [77.355, 87.3]
 
 
 def kelvin_si(p, factor, T, rho, M, gamma):
@@ -33,6 +52,31 @@ def agree(a, b, tol=1e-9):
     return all(abs(float(x) - float(y)) <= tol * max(scale, abs(float(y))) for x, y in zip(a, b))
 
 
+def read_std_curve(fname):
+    """(monolayer uptake, pressures, loadings) of a standard isotherm file, parsed by hand."""
+    rows = (Path(SRC) / "data" / "stdiso" / fname).read_text().splitlines()
+    k = next(i for i, l in enumerate(rows) if l.startswith("data:"))
+    meta = dict(l.split(",", 1) for l in rows[:k] if "," in l)
+    pts = [l.split(",") for l in rows[k + 2:] if l.strip()]
+    return float(meta["monolayer uptake [mmol/g]"]), [float(r[0]) for r in pts], [float(r[1]) for r in pts]
+
+
+def interp_curve(ps, ts, x):
+    """piecewise linear through (ps, ts); 0 below the first point, the last value above the last"""
+    if x < ps[0]:
+        return 0.0
+    if x >= ps[-1]:
+        return ts[-1]
+    lo, hi = 0, len(ps) - 1
+    while hi - lo > 1:
+        mid = (lo + hi) // 2
+        if ps[mid] <= x:
+            lo = mid
+        else:
+            hi = mid
+    return ts[lo] + (x - ps[lo]) * (ts[hi] - ts[lo]) / (ps[hi] - ps[lo])
+
+
 def run(ck):
     pg = import_pygaps()
     import numpy as np
@@ -44,7 +88,6 @@ def run(ck):
     quiet_logging()
     np.seterr(all="ignore")
     rng = ck.rng
-    thorough = ck.tier == "thorough"
     N = ck.n(80, 300)
 
     # ------------------------------------------------------------------ 1. translator validation (Kelvin, thickness) + tables
@@ -66,6 +109,8 @@ def run(ck):
             ck.fail_case({"clause": "Kelvin-KJS radius is not the hemispherical Kelvin radius + 0.3 nm"}, {"p": p, "T": T})
         cases.append(("thickness_halsey", {"pressure": p}, mt.thickness_halsey(p)))
         cases.append(("thickness_harkins_jura", {"pressure": p}, mt.thickness_harkins_jura(p)))
+        ld, mono = rng.uniform(0, 30), logu(rng, 0.05, 20)
+        cases.append(("convert_to_thickness", {"loading": ld, "monolayer": mono}, mt.convert_to_thickness(ld, mono)))
     tv_run(ck, cases)
     for (b, g), want in MENISCUS.items():
         got = mk.get_meniscus_geometry(b, g)
@@ -77,6 +122,44 @@ def run(ck):
     for mg in FACTOR:
         lines.append(f"gf {mg}")
         plan.append(("gf", None))
+
+    # ------------------------------------------------------------------ 1b. tabulated thickness curves: independent reading of the data files
+    slines, splan = [], []          # requests of the stateful session driver (Drv/Meso.lean) and what to compare each reply with
+    curves = {}
+    for tname, (fname, fn_name) in STD_CURVES.items():
+        try:
+            mono, cps, cns = read_std_curve(fname)
+        except Exception as e:  # noqa
+            ck.broken.append({"step": "standard thickness curve data", "what": f"{fname}: {e!r}"[:300]})
+            continue
+        cts = [n / mono * MONOLAYER_NM for n in cns]
+        curves[tname] = (cps, cts)
+        # interleaved calls of the two curves (the library keeps loaded interpolators in a module-level dict)
+    order = [t for t in curves for _ in range(2)]
+    rng.shuffle(order)
+    for tname in order:
+        fname, fn_name = STD_CURVES[tname]
+        cps, cts = curves[tname]
+        mono, _, cns = read_std_curve(fname)
+        xs = [rng.uniform(0.0, 1.0) for _ in range(ck.n(12, 40))] + [logu(rng, 1e-8, 1e-2) for _ in range(4)] + rng.sample(cps, 4) + [cps[0] * 0.5, cps[0], cps[-1], (1 + cps[-1]) / 2]
+        fn = getattr(mt, fn_name, None)
+        try:
+            got = [float(v) for v in np.atleast_1d(fn(np.array(xs)))] if fn else None
+            got_named = [float(v) for v in np.atleast_1d(mt.get_thickness_model(tname)(np.array(xs)))]
+        except Exception as e:  # noqa
+            ck.fail_case({"clause": "tabulated thickness model raises", "thickness": tname, "error": type(e).__name__}, {"pressures": xs[:6], "error": repr(e)[:200]})
+            continue
+        want = [interp_curve(cps, cts, x) for x in xs]
+        for which, arr in (("function " + fn_name, got), ("thickness_model name", got_named)):
+            if arr is None:
+                continue
+            ck.count(("tab", tname, which, tuple(xs[:3])), bucket="oracle:tabulated thickness " + fn_name)
+            bad = [(x, a, w) for x, a, w in zip(xs, arr, want) if not (abs(a - w) <= 1e-11 * max(abs(w), 1e-3))]
+            if bad:
+                ck.fail_case({"clause": "tabulated thickness is not the interpolated standard isotherm (t = n / n_m * 0.354 nm, 0 below, last value above)", "thickness": tname, "via": which},
+                             {"pressure": bad[0][0], "got": bad[0][1], "expected": bad[0][2], "file": fname, "n_bad": len(bad)})
+        slines.append(f"tcurve {q(mono)} {qlist(cps)} {qlist(cns)} {qlist(xs)}")
+        splan.append(("tcurve", (tname, xs, got_named)))
 
     # ------------------------------------------------------------------ 2. recurrence correspondence: ℚ model vs the three real functions
     def table_fn(ps, vals):
@@ -106,26 +189,82 @@ def run(ck):
         ck.count(("rec", method, geo, n, zero_t, i), bucket=f"recurrence:{method}:{geo}:{'zero-t' if zero_t else 't>0'}",
                  sample={"method": method, "geometry": geo, "n": n} if i % 60 == 0 else None)
 
-    # ------------------------------------------------------------------ 3. property oracle on psd_mesoporous (isotherm entry point)
+    # ------------------------------------------------------------------ 3. property oracle on psd_mesoporous (isotherm entry point), as ONE session
+    # Every analysis must satisfy the property's equations for the property set / thickness model / Kelvin model / data that are current
+    # at the time of the call, whatever was analysed before under the same names.
     from pygaps.core.adsorbate import Adsorbate
+    from pygaps.data import ADSORBATE_LIST
     worst = {}
 
     def note(k, v):
         worst[k] = max(worst.get(k, 0.0), v)
         return v
 
-    for i in range(N):
-        ads_name = rng.choice(["N2", "N2", "Ar", "CO2"])
-        T = {"N2": 77.355, "Ar": 87.3, "CO2": rng.choice([195.0, 273.15])}[ads_name]
-        ads = Adsorbate.find(ads_name)
-        try:
-            M, rho, gamma = ads.molar_mass(), ads.liquid_density(T), ads.surface_tension(T)
-        except Exception:
-            continue
+    objs = []            # model object id -> {"obj": Adsorbate, "name", "props": my own record of its current property set, "log": what happened to it}
+    registered = {}      # user name -> object id of the instance that is in ADSORBATE_LIST (first of that name)
+    name_log = {n: [] for n in USER_NAMES}   # per name: the property sets it has had in this process (for the replay detail)
+    kept = []            # isotherms kept alive for later re-analysis: dict(iso, obj id, model iso index, data …)
+    n_iso_model = [0]
+    last_data = [None]
+
+    def rand_props():
+        M, rho, gamma = rng.uniform(2, 150), rng.uniform(0.3, 2), rng.uniform(1, 40)
+        return {"molar_mass": M, "liquid_density": rho, "surface_tension": gamma, "liquid_molar_density": rho / M}
+
+    def props_tokens(pr):
+        return f"{q(pr['molar_mass'])} {q(pr['liquid_density'])} {q(pr['surface_tension'])} {q(pr['liquid_molar_density'])}"
+
+    def create(name, store):
+        pr = rand_props()
+        obj = Adsorbate(name, store=store, **dict(pr))
+        objs.append({"obj": obj, "name": name, "props": pr})
+        oid = len(objs) - 1
+        was = name in registered
+        if store and not was:
+            registered[name] = oid
+        name_log[name].append(("created and stored" if store and not was else "created, NOT stored (name already in the list)" if store else "created", dict(pr)))
+        slines.append(f"create {name} {props_tokens(pr)} {'T' if store else 'F'}")
+        splan.append(("done", oid))
+        return oid
+
+    def unregister(name):
+        for old in [a for a in ADSORBATE_LIST if isinstance(a, Adsorbate) and a.name == name]:
+            ADSORBATE_LIST.remove(old)
+        registered.pop(name, None)
+        slines.append(f"unregister {name}")
+        splan.append(("done", 0))
+
+    def edit(oid):
+        rec = objs[oid]
+        pr = dict(rec["props"])
+        new = rand_props()
+        which = rng.choice([["surface_tension"], ["liquid_density"], ["molar_mass"], ["surface_tension", "liquid_density", "molar_mass"]])
+        for k in which:
+            pr[k] = new[k]
+        pr["liquid_molar_density"] = pr["liquid_density"] / pr["molar_mass"]
+        for k, v in pr.items():
+            rec["obj"].properties[k] = v            # in place, the object stays the same
+        rec["props"] = pr
+        name_log[rec["name"]].append(("edited in place: " + ",".join(which), dict(pr)))
+        slines.append(f"edit {oid} {props_tokens(pr)}")
+        splan.append(("done", oid))
+
+    def user_thickness(a, b):
+        def thickness(pressure):                     # every user thickness function has the same __name__
+            return a * (-1.0 / np.log(pressure)) ** b
+        return thickness, (lambda p: a * (-1.0 / math.log(p)) ** b)
+
+    def user_kelvin(scale, shift):
+        def kelvin(pressure, meniscus_geometry, temperature, liquid_density, adsorbate_molar_mass, adsorbate_surface_tension):   # same __name__ every time
+            return scale * mk.kelvin_radius(pressure, meniscus_geometry, temperature, liquid_density, adsorbate_molar_mass, adsorbate_surface_tension) + shift
+        return kelvin
+
+    def gen_data():
         n = rng.choice([6, 10, 20, 40, 80])
         ps = sorted({rng.uniform(0.02, 0.995) for _ in range(n)} | ({1 - logu(rng, 1e-6, 4e-3)} if rng.random() < 0.3 else set()))
         n = len(ps)
         step_case = rng.random() < 0.25
+        j0 = None
         if step_case:
             j0 = rng.randrange(1, n - 1)
             base, jump = rng.uniform(0.5, 5), rng.uniform(1, 20)
@@ -133,50 +272,174 @@ def run(ck):
         else:
             inc = [rng.uniform(0, 1) ** 3 * rng.uniform(0.01, 3) for _ in range(n)]
             load = list(np.cumsum(inc) + rng.uniform(0, 2))
-        branch = rng.choice(["ads", "des"])
-        pa, la = np.array(ps), np.array(load)
-        if branch == "des":
+        return {"ps": ps, "load": [float(x) for x in load], "branch": rng.choice(["ads", "des"]), "step_case": step_case, "j0": j0}
+
+    def build_iso(ads_name, T, data, basis, M):
+        n = len(data["ps"])
+        pa, la = np.array(data["ps"]), np.array(data["load"])
+        if basis == "mass":
+            la = la * M                                                     # mmol/g -> mg/g with the molar mass of the moment: from now on the DATA of this isotherm
+        if data["branch"] == "des":
             # full loop: adsorption up (lower curve), desorption down along `load`
             p_all = np.concatenate([pa, pa[::-1]])
             l_all = np.concatenate([la * 0.9, la[::-1]])
             br = [0] * n + [1] * n
         else:
             p_all, l_all, br = pa, la, [0] * n
-        iso = pg.PointIsotherm(pressure=p_all, loading=l_all, branch=br, material="pgv-synth", adsorbate=ads_name, temperature=T,
-                               pressure_mode="relative", pressure_unit=None, loading_basis="molar", loading_unit="mmol",
-                               material_basis="mass", material_unit="g", temperature_unit="K")
+        return pg.PointIsotherm(pressure=p_all, loading=l_all, branch=br, material=rng.choice(["pgv-synth", "pgv-synth", "pgv-other"]), adsorbate=ads_name, temperature=T,
+                                pressure_mode="relative", pressure_unit=None, loading_basis=basis, loading_unit="mmol" if basis == "molar" else "mg",
+                                material_basis="mass", material_unit="g", temperature_unit="K")
+
+    for i in range(N):
+        # ---------------------------------------------------------------- which isotherm: re-analysis of a kept one, a built-in adsorbate, a user-defined one
+        u = rng.random()
+        action = "new"
+        if kept and u < 0.2:
+            k = rng.choice(kept)
+            iso, oid, iso_idx, data, T, ads_name, basis, stored = k["iso"], k["oid"], k["iso_idx"], k["data"], k["T"], k["name"], k["basis"], k["stored"]
+            if oid is not None and rng.random() < 0.6:
+                edit(oid)                                                   # the object the old isotherm holds changes under it
+                action = "kept isotherm, its adsorbate edited in place since"
+            else:
+                action = "kept isotherm analysed again"
+            kind = "user" if oid is not None else "builtin"
+        elif u < 0.5:
+            kind, oid, iso_idx, basis = "builtin", None, None, "molar"
+            ads_name = rng.choice(["N2", "N2", "Ar", "CO2"])
+            T = {"N2": 77.355, "Ar": 87.3, "CO2": rng.choice([195.0, 273.15])}[ads_name]
+            data = last_data[0] if last_data[0] is not None and rng.random() < 0.2 else gen_data()
+            iso = None
+        else:
+            kind, iso_idx = "user", None
+            ads_name = rng.choice(USER_NAMES)
+            T = rng.choice(USER_TEMPS + USER_TEMPS + [round(rng.uniform(60, 320), 2)])
+            if ads_name not in registered:
+                create(ads_name, True)
+                action = "adsorbate created and stored"
+            else:
+                v = rng.random()
+                if v < 0.25:
+                    action = "adsorbate unchanged"
+                elif v < 0.6:
+                    unregister(ads_name)
+                    create(ads_name, True)
+                    action = "adsorbate re-registered under the same name with another property set"
+                elif v < 0.9:
+                    edit(registered[ads_name])
+                    action = "adsorbate properties edited in place"
+                else:
+                    create(ads_name, True)                                  # not stored: the list keeps the first object of that name
+                    action = "second object of the same name created (the list keeps the first)"
+            oid = registered[ads_name]
+            basis = "mass" if rng.random() < 0.25 else "molar"
+            data = last_data[0] if last_data[0] is not None and rng.random() < 0.35 else gen_data()     # same data, same name, other properties
+            iso = None
+        last_data[0] = data
+        if kind == "builtin":
+            ads = Adsorbate.find(ads_name)
+            try:
+                M, rho, gamma = ads.molar_mass(), ads.liquid_density(T), ads.surface_tension(T)
+            except Exception:
+                continue
+        else:
+            pr = objs[oid]["props"]
+            M, rho, gamma = pr["molar_mass"], pr["liquid_density"], pr["surface_tension"]
+        ps, load, branch, step_case, j0 = data["ps"], data["load"], data["branch"], data["step_case"], data["j0"]
+        n = len(ps)
+        if iso is None:
+            try:
+                iso = build_iso(ads_name, T, data, basis, M)
+            except Exception as e:  # noqa
+                ck.broken.append({"step": "harness: building the isotherm", "what": repr(e)[:300]})
+                continue
+            if kind == "user":
+                held = next((j for j, rec in enumerate(objs) if rec["obj"] is iso.adsorbate), None)
+                slines.append(f"iso {ads_name} {q(T)} {basis} {qlist(ps)} {qlist([x * M for x in load] if basis == 'mass' else load)}")
+                splan.append(("done", held))
+                iso_idx = n_iso_model[0]
+                n_iso_model[0] += 1
+                if held != oid:
+                    ck.broken.append({"step": "harness bookkeeping of the adsorbate list", "what": f"isotherm of {ads_name} holds object {held}, expected {oid}"})
+                    continue
+            stored = [x * M for x in load] if basis == "mass" else list(load)         # what the isotherm holds (mg/g or mmol/g): fixed from now on
+            if rng.random() < 0.35 and len(kept) < 12:
+                kept.append({"iso": iso, "oid": oid, "iso_idx": iso_idx, "data": data, "T": T, "name": ads_name, "basis": basis, "stored": stored})
+        ck.count(("session", action, i), nontrivial=False, bucket="session:" + kind + ":" + action)
+
+        # ---------------------------------------------------------------- the call
         method = rng.choice(["pygaps-DH", "pygaps-DH", "BJH", "DH"])
         geo = rng.choice(["slit", "cylinder", "sphere"]) if method == "pygaps-DH" else "cylinder"
         men = rng.choice([None, None, "hemicylindrical", "cylindrical", "hemispherical"])
-        tname = rng.choice(["zero thickness", "zero thickness", "Halsey", "Harkins/Jura"])
-        kname = "Kelvin"
+        mg = men or MENISCUS[(branch, geo)]
+        tname = rng.choice(["zero thickness", "zero thickness", "Halsey", "Harkins/Jura"] + list(curves) + ["user callable"])
+        if tname == "user callable":
+            ta, tb = rng.uniform(0.2, 0.6), rng.uniform(0.2, 0.4)
+            targ, tfun = user_thickness(ta, tb)
+            tdesc = {"user thickness function": f"t(p) = {ta!r} * (-1/ln p) ** {tb!r}"}
+        elif tname in curves:
+            targ, tfun = tname, (lambda p, c=curves[tname]: interp_curve(c[0], c[1], p))
+            tdesc = {}
+        else:
+            targ = tname
+            tfun = {"zero thickness": lambda p: 0.0, "Halsey": lambda p: float(mt.thickness_halsey(p)), "Harkins/Jura": lambda p: float(mt.thickness_harkins_jura(p))}[tname]
+            tdesc = {}
+        kv = rng.random()
+        if kv < 0.12 and mg == "cylindrical":
+            kname, karg, kfun = "Kelvin-KJS", "Kelvin-KJS", (lambda p: kelvin_si(p, 1.0, T, rho, M, gamma) + 0.3)
+            kdesc = {}
+        elif kv < 0.24:
+            ks, kd = rng.uniform(0.8, 1.25), rng.uniform(0.0, 0.5)
+            kname, karg, kfun = "user callable", user_kelvin(ks, kd), (lambda p: ks * kelvin_si(p, FACTOR[mg], T, rho, M, gamma) + kd)
+            kdesc = {"user Kelvin function": f"r(p) = {ks!r} * kelvin_radius(p, …arguments passed by psd_mesoporous…) + {kd!r}"}
+        else:
+            kname, karg, kfun = "Kelvin", "Kelvin", (lambda p: kelvin_si(p, FACTOR[mg], T, rho, M, gamma))
+            kdesc = {}
         lim = None if rng.random() < 0.4 else (rng.choice([None, 0, rng.uniform(0.02, 0.5)]), rng.choice([None, rng.uniform(0.5, 0.999)]))
         sig = {"method": method, "geometry": geo, "thickness": tname}
-        ck.count(("psd", method, geo, men, tname, branch, n, i), bucket=f"oracle:{method}:{geo}:{tname}:{branch}" + (":step" if step_case else ""),
-                 sample={"method": method, "geometry": geo, "meniscus": men, "thickness": tname, "branch": branch, "n": n, "limits": lim} if i % 40 == 0 else None)
+        if kname != "Kelvin":
+            sig["kelvin_model"] = kname
+        if kind == "user":
+            sig["adsorbate"] = "user-defined"
+        ck.count(("psd", method, geo, men, tname, kname, branch, n, i), bucket=f"oracle:{method}:{geo}:{tname}:{branch}" + (":step" if step_case else "") + ("" if kname == "Kelvin" else ":" + kname),
+                 sample={"method": method, "geometry": geo, "meniscus": men, "thickness": tname, "kelvin": kname, "branch": branch, "n": n, "limits": lim, "adsorbate": kind} if i % 40 == 0 else None)
         lo, hi = (0.1, 0.99) if lim is None else lim
         sel_strict = [j for j, p in enumerate(ps) if (not lo or p > lo) and (not hi or p < hi)]
         sel_loose = [j for j, p in enumerate(ps) if (not lo or p >= lo) and (not hi or p <= hi)]
+        model_ok = kind == "user" and kname != "user callable" and n <= 40 and i % 2 == 0
+        detail = {"adsorbate": ads_name, "T": T, "pressure": ps, "loading_mmol_g_when_the_isotherm_was_built": load, "loading_basis_of_the_isotherm": basis, "amounts_held_by_the_isotherm": stored, "branch": branch, "meniscus": men, "limits": lim,
+                  "kelvin_model": kname, "session_step": i, "what_happened_before_this_call": action, **tdesc, **kdesc}
+        if kind == "user":
+            detail["adsorbate_properties_now"] = dict(objs[oid]["props"])
+            detail["history_of_this_adsorbate_name_in_the_process"] = [{"event": e, "properties": p_} for e, p_ in name_log[ads_name][-6:]]
+
+        def model_line():
+            thick_arr = [tfun(p) for p in ps]
+            lnp = [float(np.log(p)) for p in ps]
+            return (f"analyse {iso_idx} {method} {geo} {q(FACTOR[mg])} {'J' if kname == 'Kelvin-KJS' else 'K'} {'N' if lim is None else 'L'} "
+                    f"{optq(None if lim is None else lim[0])} {optq(None if lim is None else lim[1])} {qlist(thick_arr)} {qlist(lnp)}")
+
         try:
-            r = pgc.psd_mesoporous(iso, psd_model=method, pore_geometry=geo, meniscus_geometry=men, branch=branch, thickness_model=tname, kelvin_model=kname, p_limits=lim)
+            r = pgc.psd_mesoporous(iso, psd_model=method, pore_geometry=geo, meniscus_geometry=men, branch=branch, thickness_model=targ, kelvin_model=karg, p_limits=lim)
         except CalculationError:
             if len(sel_strict) >= 3:
-                ck.fail_case({**sig, "clause": "refused although three or more points lie strictly inside the limits"}, {"pressure": ps, "limits": lim})
+                ck.fail_case({**sig, "clause": "refused although three or more points lie strictly inside the limits"}, detail)
+            elif model_ok:
+                slines.append(model_line())
+                splan.append(("refused", None))
             continue
         except Exception as e:  # noqa
-            ck.fail_case({**sig, "clause": "psd_mesoporous raises a non-pyGAPS error", "error": type(e).__name__}, {"pressure": ps, "limits": lim, "error": repr(e)[:200]})
+            ck.fail_case({**sig, "clause": "psd_mesoporous raises a non-pyGAPS error", "error": type(e).__name__}, {**detail, "error": repr(e)[:200]})
             continue
         a, b = int(r["limits"][0]), int(r["limits"][1])
         used = list(range(a, b + 1))
-        detail = {"adsorbate": ads_name, "T": T, "pressure": ps, "loading_mmol_g": load, "branch": branch, "meniscus": men, "limits": lim, "used": [a, b]}
+        detail["used"] = [a, b]
         if len(sel_loose) < 3 or not (set(sel_strict) <= set(used) <= set(sel_loose)):
             ck.fail_case({**sig, "clause": "points used are not the points inside the pressure limits"}, detail)
             continue
         pu = [ps[j] for j in used]
-        vliq = [load[j] * 1e-3 * M / rho for j in used]           # cm3/g of liquid
-        mg = men or MENISCUS[(branch, geo)]
-        tfun = {"zero thickness": lambda p: 0.0, "Halsey": lambda p: float(mt.thickness_halsey(p)), "Harkins/Jura": lambda p: float(mt.thickness_harkins_jura(p))}[tname]
-        w_exp = [2 * (kelvin_si(p, FACTOR[mg], T, rho, M, gamma) + tfun(p)) for p in pu]
+        # cm3/g of liquid from the amounts the isotherm holds and the property set that is current now
+        vliq = [stored[j] * 1e-3 / rho if basis == "mass" else stored[j] * 1e-3 * M / rho for j in used]
+        w_exp = [2 * (kfun(p) + tfun(p)) for p in pu]
         widths, vols, dist, cum = (np.asarray(r[k], dtype=float) for k in ("pore_widths", "pore_volumes", "pore_distribution", "pore_volume_cumulative"))
         m = len(pu) - 1
         if not (len(widths) == len(vols) == len(dist) == len(cum) == m):
@@ -219,7 +482,7 @@ def run(ck):
                 elif not (w_exp[k] * (1 - 1e-9) <= widths[k] <= w_exp[k + 1] * (1 + 1e-9)):
                     ck.fail_case({**sig, "clause": "single peak is not at the Kelvin-predicted width"}, {**detail, "width": float(widths[k]), "bracket": [w_exp[k], w_exp[k + 1]]})
         # the wrapper against the ℚ model on the same arrays (correspondence of the whole pipeline)
-        if i % 3 == 0 and m <= 40:
+        if i % 3 == 0 and m <= 40 and kname == "Kelvin":
             thick_arr = [tfun(p) for p in pu]
             kel_arr = [float(x) for x in mk.kelvin_radius(np.array(pu), mg, T, rho, M, gamma)]
             lines.append(f"meso {method} {geo} {qlist(vliq)} {qlist(thick_arr)} {qlist(kel_arr)}")
@@ -227,6 +490,10 @@ def run(ck):
         if i % 2 == 0:
             lines.append(f"win meso {'N' if lim is None else 'L'} {optq(None if lim is None else lim[0])} {optq(None if lim is None else lim[1])} {qlist(ps)} []")
             plan.append(("win", (a, b)))
+        # the session model: the same call on the model's heap / registry / isotherm (property set looked up by the model itself)
+        if model_ok:
+            slines.append(model_line())
+            splan.append(("analysis", (method, geo, r, a, b)))
 
     # ------------------------------------------------------------------ correspondence replies
     n_dis = 0
@@ -267,8 +534,43 @@ def run(ck):
                 n_dis += 1
                 if n_dis <= 3:
                     ck.broken.append({"step": f"correspondence Model/Meso.lean ({what})", "what": {"request": line[:300], "model": rep[:300], "implementation": str(data)[:300]}})
-    ck.cov["correspondence_disagreements"] = n_dis
+    # the session model (stateful driver): object ids, refusals, results of the analyses, tabulated curves
+    n_sdis = 0
+    try:
+        sreplies = ck.drive("Meso", slines) if slines else []
+    except Exception as e:
+        sreplies = None
+        ck.broken.append({"step": "driver Meso", "what": str(e)[:600]})
+    if sreplies is not None:
+        for (what, data), rep, line in zip(splan, sreplies, slines):
+            t = rep.split()
+            ck.count(("scorr", what), nontrivial=False, bucket="correspondence:session " + what)
+            if what == "done":
+                ok = t == ["ok", str(data)]
+            elif what == "refused":
+                ok = t == ["refused"]
+            elif what == "tcurve":
+                tname, xs, got = data
+                ok = t[0] == "ok" and agree(got, parse_qlist(t[1]), 1e-11)
+            else:
+                method, geo, r, a, b = data
+                if t[0] != "ok":
+                    ok = False
+                else:
+                    arrs = [parse_qlist(x) for x in t[1:6]]
+                    ok = (int(t[6]), int(t[7])) == (a, b) and all(
+                        agree(np.asarray(r[k], dtype=float), arr, 1e-6) for k, arr in zip(("pore_widths", "pore_areas", "pore_volumes", "pore_distribution", "pore_volume_cumulative"), arrs))
+            if not ok:
+                n_sdis += 1
+                if n_sdis <= 3:
+                    ck.broken.append({"step": f"correspondence Model/MesoSession.lean ({what})", "what": {"request": line[:300], "model": rep[:300], "implementation": str(data)[:300]}})
+    ck.cov["correspondence_disagreements"] = n_dis + n_sdis
+    ck.cov["session"] = {"adsorbate_objects_created": len(objs), "isotherms_in_model": n_iso_model[0], "kept_isotherms": len(kept), "driver_lines": len(slines)}
     ck.cov["worst_relative_errors"] = {k: float(f"{v:.3g}") for k, v in sorted(worst.items())}
-    ck.cov["rule"] = ("random strictly increasing relative-pressure grids (6-80 points) with non-decreasing loading incl. single-step isotherms, N2/Ar/CO2 property sets, 3 methods x admissible pore geometries x "
-                      "explicit or inferred meniscus geometry x zero / Halsey / Harkins-Jura thickness, ads and des branches, any pressure limits; recurrences also on 2-16 point arrays with arbitrary model arrays")
-    ck.assumptions += ["CoolProp liquid density / surface tension are inputs", "tabulated thickness isotherms (SiO2, carbon black) are not exercised"]
+    ck.cov["rule"] = ("ONE interpreter session of analyses: random strictly increasing relative-pressure grids (6-80 points) with non-decreasing loading incl. single-step isotherms (data re-used between consecutive "
+                      "analyses), N2/Ar/CO2 and user-defined adsorbate property sets under two shared names (created, re-registered under the same name, edited in place, second object of the same name, "
+                      "isotherms kept and re-analysed after their adsorbate changed; molar and mass loading bases; shared temperatures and material names), 3 methods x admissible pore geometries x "
+                      "explicit or inferred meniscus geometry x zero / Halsey / Harkins-Jura / the two tabulated standard curves / user thickness callables (same __name__) x Kelvin / Kelvin-KJS / user Kelvin "
+                      "callables (same __name__), ads and des branches, any pressure limits; recurrences also on 2-16 point arrays with arbitrary model arrays; tabulated curves against the data files")
+    ck.assumptions += ["CoolProp liquid density / surface tension of the built-in adsorbates are inputs",
+                       "user-defined property sets are self-consistent (liquid_molar_density = liquid_density / molar_mass)"]
